@@ -415,6 +415,7 @@ func (w *world) outputs(h *keyset.Handle, mat *tinkpb.Keyset, g *gen) {
 		return true
 	}
 	want := expectedInfo(mat)
+	ist := w.infoLines(h, mat, ctx) // info.go: byte-level lines for the Lean model of KeysetInfo / keyset bytes
 	var str string
 	var info *tinkpb.KeysetInfo
 	if guard("String()", func() { str = h.String() }) {
@@ -542,6 +543,7 @@ func (w *world) outputs(h *keyset.Handle, mat *tinkpb.Keyset, g *gen) {
 					o.Violate("%s: unknown fields in a KeyInfo; %s", where, ctx())
 				}
 			}
+			w.encLines(ist, wn, enc, buf.Bytes(), where, ctx) // info.go: written form = ciphertext (+ info), byte for byte
 			// the ciphertext is the encryption of exactly the serialized keyset
 			pt, derr := k.a.Decrypt(enc.EncryptedKeyset, ad)
 			inner := &tinkpb.Keyset{}
@@ -814,4 +816,5 @@ func main() {
 		w.keks = append(w.keks, kek{t.name, pair[0], pair[1]})
 	}
 	w.run()
+	w.utf8Lines()
 }
